@@ -92,6 +92,21 @@ impl<'ast> Visit<'ast> for LoopFinder {
         self.closures += 1;
         syn::visit::visit_expr_closure(self, e);
     }
+    fn visit_expr_call(&mut self, e: &'ast syn::ExprCall) {
+        // D8: `i32::max(A, B)` / `i32::min(A, B)` (provided trait methods of Ord, called by path)
+        if let syn::Expr::Path(p) = &*e.func {
+            let segs: Vec<String> = p.path.segments.iter().map(|s| s.ident.to_string()).collect();
+            if segs.len() == 2 && segs[0] == "i32" && (segs[1] == "max" || segs[1] == "min") && e.args.len() == 2 {
+                let f = e.func.span().byte_range();
+                self.vd.push(format!(
+                    "{{\"rule\":\"D8\",\"func\":[{},{}],\"name\":[{},{}]}}",
+                    f.start, f.end,
+                    p.path.segments[1].ident.span().byte_range().start, p.path.segments[1].ident.span().byte_range().end
+                ));
+            }
+        }
+        syn::visit::visit_expr_call(self, e);
+    }
     fn visit_expr_method_call(&mut self, e: &'ast syn::ExprMethodCall) {
         // D7: RECV.map_err(|_| { STMTS; TAIL })   (closure ignores its argument, body has no return/break/continue/?)
         if e.method == "map_err" && e.args.len() == 1 {
